@@ -167,6 +167,14 @@ inductive Op where
   | onCommit                                           -- `tx.OnCommit(f)`: register a handler
 deriving DecidableEq, Repr, Inhabited
 
+/-- Calls the walletdb API offers: on the root only top-level create-if-not-exists, delete, lookup and
+`ForEachBucket`; there is no handle on the root bucket itself. -/
+def Op.apiOk : Op → Bool
+  | .createBucketIfNotExists [] _ | .deleteBucket [] _ | .lookup [] _ | .forEach [] _ => true
+  | .put [] _ _ | .get [] _ | .delete [] _ | .createBucket [] _ | .sequence [] | .setSequence [] _
+  | .nextSequence [] | .curOpen _ [] => false
+  | _ => true
+
 inductive Reply where
   | ok
   | err (e : Err)
